@@ -29,3 +29,10 @@ for fr in frs:
     for p in fr.paths:
         for ob in p.obligations:
             if 'TypeError' in ob.note: print(ob.note, ob.lineno, [a for a,k in ob.assumptions if k=='pc'][-5:])
+for r in sorted(res,key=lambda r:-r.time)[:5]: print('SLOW %.2f'%r.time,r.solver,r.func,r.ob.note[:80])
+for r in res:
+    if 'preserved: c05_inv(self) [conjunct 3]' in r.ob.note: open('/tmp/c3.smt2','w').write(r.text)
+for r in res:
+    if r.verdict!='unsat':
+        pcs=[a for a,k in r.ob.assumptions if k in('pc','requires')]
+        print('PC',pcs[:12]); print('GOAL',r.ob.goal[:300]); break
